@@ -74,9 +74,15 @@ def check_case(case, wf):
     if tout.shape != t.shape or np.max(np.abs(tout - t)) > 1e-12 * max(1.0, abs(t[-1])):
         bad.append(('C12:time-axis', 'reported time stamps differ from the requested grid'))
         return bad, m
-    sv = max([np.max(np.abs(v)) for v in V.values()] + [1e-12])
+    # physical floors: what the inputs could drive through the circuit's own resistances (two equal and opposite current sources give an
+    # exactly zero response: rounding noise must be compared with the scale of the drive, not with itself)
+    rs = [c['params']['R'] for c in case['components'] if c['kind'] == 'resistor'] or [1.0]
+    kinds = {c['id']: c['kind'] for c in case['components']}
+    drive_v = max([abs(wf[s][3]) * (1.0 if kinds[s] == 'dc_voltage_source' else max(rs)) for s in m['sources']] + [0.0])
+    drive_i = max([abs(wf[s][3]) * (1.0 if kinds[s] == 'dc_current_source' else 1.0 / min(rs)) for s in m['sources']] + [0.0])
+    sv = max([np.max(np.abs(v)) for v in V.values()] + [1e-12, 1e-6 * drive_v])
     rmin = min([c['params']['R'] for c in case['components'] if c['kind'] == 'resistor'] + [1.0])
-    si = max([np.max(np.abs(v)) for v in I.values()] + [1e-12, sv / max(rmin, 1e-12) * 1e-3])     # a current scale even when nothing flows
+    si = max([np.max(np.abs(v)) for v in I.values()] + [1e-12, sv / max(rmin, 1e-12) * 1e-3, 1e-6 * drive_i])     # a current scale even when nothing flows
     comps = {c['id']: c for c in case['components']}
     # rest
     for i in m['c_ids']:
@@ -148,25 +154,25 @@ def check_case(case, wf):
         if r.success:
             X = r.y
             for k, i in enumerate(m['c_ids']):
-                if np.max(np.abs(X[k] - V[i])) > 2e-5 * max(np.max(np.abs(X[k])), 1e-9 * sv):
+                if np.max(np.abs(X[k] - V[i])) > 2e-5 * max(np.max(np.abs(X[k])), 1e-3 * sv):
                     bad.append(('C12:not-the-exact-response', f'capacitor {i!r}: max deviation {np.max(np.abs(X[k] - V[i]))} from the independent '
                                 f'integration (scale {np.max(np.abs(X[k]))})'))
                     return bad, m
             for k, i in enumerate(m['l_ids']):
                 kk = len(m['c_ids']) + k
-                if np.max(np.abs(X[kk] - I[i])) > 2e-5 * max(np.max(np.abs(X[kk])), 1e-9 * si):
+                if np.max(np.abs(X[kk] - I[i])) > 2e-5 * max(np.max(np.abs(X[kk])), 1e-3 * si):
                     bad.append(('C12:not-the-exact-response', f'inductor {i!r}: max deviation {np.max(np.abs(X[kk] - I[i]))}'))
                     return bad, m
     # settling to the DC solution for the final constant inputs
-    if (t[-1] - t[N // 4]) * slow > 10:
+    if (t[-1] - t[N // 4]) * slow > 12:        # e^-12 = 6e-6 of the transient amplitude (which may overshoot the final scale) is left
         ex = spec_solution(ssrun.phasor_network(case, 0, amplitudes=final))
         if ex is not None:
             for x in nodes:
-                if abs(PH[x][-1] - complex(ex['phi'][x]).real) > 2e-3 * max(sv, 1e-9):
+                if abs(PH[x][-1] - complex(ex['phi'][x]).real) > 5e-3 * max(sv, 1e-9):
                     bad.append(('C12:does-not-settle-to-dc', f'potential {x!r}: final {PH[x][-1]} vs DC {complex(ex["phi"][x]).real}'))
                     return bad, m
             for i in ids:
-                if abs(I[i][-1] - complex(ex['i'][i]).real) > 2e-3 * max(si, 1e-9):
+                if abs(I[i][-1] - complex(ex['i'][i]).real) > 5e-3 * max(si, 1e-9):
                     bad.append(('C12:does-not-settle-to-dc', f'current {i!r}: final {I[i][-1]} vs DC {complex(ex["i"][i]).real}'))
                     return bad, m
     return bad, m
